@@ -898,6 +898,25 @@ func rulePoolPredicate(c *Ctx, rule string) {
 		return
 	}
 	n := 0
+	// a decision written as a predicate closure for a library scan (slices.IndexFunc(pools, isSync)): what the closure
+	// returns is the test
+	for _, cl := range fn.AnonFuncs {
+		if cl.Signature.Results().Len() != 1 || cl.Signature.Results().At(0).Type().String() != "bool" {
+			continue
+		}
+		for _, r := range returnsOf(cl) {
+			sym := newSym(L, map[string]bool{})
+			sym.maxD = 0
+			term := strings.Join(sym.eval(r.Results[0]), "|")
+			if !strings.Contains(term, "ProviderSpec.IsAsync(") {
+				continue
+			}
+			n++
+			okShape := strings.Contains(term, "field:internal/kessoku.ProviderSpec.IsAsync(field:internal/kessoku.node.providerSpec(index(") && !strings.Contains(term, genPkg+".")
+			c.check(okShape, rule, fnName(fn)+":pool-kind-predicate", L.pos(r.Pos()),
+				"a pool becomes a goroutine exactly when its first provider is Async (the test findOptimalPool and the wait computation assume)", term)
+		}
+	}
 	for _, b := range fn.Blocks {
 		if len(b.Instrs) == 0 {
 			continue
